@@ -106,7 +106,8 @@ def make_object(lc, seq, rng, allow_shuffle=True):
     if r < 0.45:
         return lc.SP(seq), seq, "direct"
     if r < 0.52:
-        return lc.SP(SeqObj=lc.Sequence(seq)), seq, "from a backend Sequence object (SeqObj=)"
+        low = rng.random() < 0.5          # the backend upper-cases what it is given
+        return lc.SP(SeqObj=lc.Sequence(seq.lower() if low else seq)), seq, "from a backend Sequence object (SeqObj=%s)" % ("lower case" if low else "upper case")
     if r < 0.60:
         import os
         import tempfile
@@ -114,7 +115,7 @@ def make_object(lc, seq, rng, allow_shuffle=True):
         os.makedirs(d, exist_ok=True)
         fd, path = tempfile.mkstemp(dir=d, suffix=".fasta")
         with os.fdopen(fd, "w") as f:
-            f.write(">made by the harness\n" + "\n".join(seq[i:i + 60] for i in range(0, len(seq), 60)) + "\n")
+            f.write(">made by the harness\n" + "\n".join(seq[i:i + 60] for i in range(0, len(seq), 60)) + rng.choice(["\n", ""]))
         try:
             out = common.call(lambda: lc.SP(sequenceFile=path))
         finally:
